@@ -82,7 +82,15 @@ Inductive instr :=
 | INative (contract method : string) (arity requested : N)
 | ICall (requested : N) (safe : bool) (body : list instr)
 | ICallT (token_flags : N) (safe : bool) (body : list instr)
+| ICallback (gated : bool) (requested : N) (body : list instr)
 | ILoad (requested : N) (body : list instr).
+
+(* a native method calling a deployed contract back (contract.CallFromNative -> callExFromNative: onNEP17Payment,
+   _deploy, the oracle callback): executed by native code running in a frame with flags f.  There is no flag gate in
+   CallFromNative itself; [gated] says whether the native method's own RequiredFlags contain AllowCall (transfer,
+   deploy, update, withdraw, finish, recoverFund: the frame then always has it) or not (finding F39: vote,
+   blockAccount, destroy).  The callback runs with  frame's flags & requested  (natives request All). *)
+Definition callback_flags (f requested : N) : N := N.land f requested.
 
 (* the CALLT opcode (contract.LoadToken): no row in the system-call table; the handler itself requires the executing
    context to have BOTH ReadStates and AllowCall, and the callee gets  caller's flags & the token's flags
@@ -145,6 +153,9 @@ Section Machine.
         if has f callt_required
         then let '(tr, ok) := run_with (exec (callee_flags f r s)) body in ((ECall, f) :: tr, ok)
         else ([], false)
+    | ICallback gated r body =>
+        if gated && negb (has f AllowCall) then ([], false)
+        else let '(tr, ok) := run_with (exec (callback_flags f r)) body in ((ECall, f) :: tr, ok)
     | ILoad r body =>
         match sys_step f "System.Runtime.LoadScript" with
         | None => ([], false)
